@@ -582,3 +582,242 @@ Proof.
   - apply redeem_fail.
   - apply xfer_fail.
 Qed.
+
+(** * exact effects *)
+Theorem redeem_exact_amount fixed s t from to d x s' :
+  step fixed s (Redeem t from to d x) = (s', OK) ->
+  0 < x /\ x <= hold s d from /\
+  (forall a, zget (bank s') a = zget (bank s) a + (if decide (to = a) then x else 0)) /\
+  escrow s' = escrow s - x /\
+  (forall d' a, hold s' d' a =
+                hold s d' a - (if decide (d = d') then if decide (from = a) then x else 0 else 0)) /\
+  (forall d', zget (supply s') d' = zget (supply s) d' - (if decide (d = d') then x else 0)).
+Proof.
+  cbn [step]. intros E.
+  destruct (redeem_ok _ _ _ _ _ _ _ _ E) as (den & dec & diff & ac & Hx & He & Hd & Hh & Hs & Hesc & Hac & ->).
+  cbn [bank escrow supply]. repeat split; try done.
+  - intros a. rewrite zget_insert. destruct (decide (to = a)) as [<-|]; lia.
+  - intros d' a. unfold hold, holders_of. cbn [liq]. rewrite holders_set_hold.
+    destruct (decide (d = d')) as [<-|]; [|lia]. rewrite zget_insert.
+    destruct (decide (from = a)) as [<-|]; lia.
+  - intros d'. rewrite zget_insert. destruct (decide (d = d')) as [<-|]; lia.
+Qed.
+
+Theorem liquidate_exact_amount fixed s t from to x s' :
+  step fixed s (Liquidate t from to x) = (s', OK) ->
+  0 < x /\ minliq s <= x /\ counter s' = (counter s + 1)%N /\
+  (forall a, zget (bank s') a = zget (bank s) a - (if decide (from = a) then x else 0)) /\
+  escrow s' = escrow s + x /\
+  (forall d' a, hold s' d' a =
+                hold s d' a + (if decide (counter s = d') then if decide (to = a) then x else 0 else 0)) /\
+  (forall d', zget (supply s') d' = zget (supply s) d' + (if decide (counter s = d') then x else 0)).
+Proof.
+  cbn [step]. intros E.
+  destruct (liquidate_ok _ _ _ _ _ _ E) as
+    (va & dec & diff & decv & dv & Hx & He & Hm & Hva & Hv & Hl0 & Hlx & Hs & Hsv & Hb & ->).
+  cbn [bank escrow supply counter]. repeat split; try done.
+  - intros a. rewrite zget_insert. destruct (decide (from = a)) as [<-|]; lia.
+  - intros d' a. unfold hold, holders_of. cbn [liq]. rewrite holders_set_hold.
+    destruct (decide (counter s = d')) as [<-|]; [|lia]. rewrite zget_insert.
+    destruct (decide (to = a)) as [<-|]; lia.
+  - intros d'. rewrite zget_insert. destruct (decide (counter s = d')) as [<-|]; lia.
+Qed.
+
+(** Liquidate: the periods already past are untouched, the upcoming ones are
+    split period by period, the new denom records the moved parts, and in time
+    the two schedules together release exactly what the original released. *)
+Theorem liquidate_split fixed s t from to x s' :
+  Inv s -> step fixed s (Liquidate t from to x) = (s', OK) ->
+  exists va va' den k dec diff,
+    accts s !! from = Some va /\ accts s' !! from = Some va' /\
+    denoms s' !! counter s = Some den /\
+    a_start va' = a_start va /\ a_end va' = a_end va /\ a_orig va' = a_orig va - x /\
+    a_lock va' = firstn k (a_lock va) ++ dec /\
+    split3 (skipn k (a_lock va)) dec diff /\ total diff = x /\
+    map pamt (d_periods den) = map pamt diff /\ length (d_periods den) = length diff /\
+    d_start den = t /\ a_start va < t < a_end va /\
+    (forall tau, ev (d_start den) (d_periods den) tau + unlocked_ev va' tau = unlocked_ev va tau).
+Proof.
+  cbn [step]. intros HI E.
+  destruct (liquidate_ok _ _ _ _ _ _ E) as
+    (va & dec & diff & decv & dv & Hx & He & Hm & Hva & Hv & Hl0 & Hlx & Hs & Hsv & Hb & ->).
+  pose proof (inv_accts _ HI _ _ Hva) as (L1 & L2 & _).
+  pose proof (liq_time _ _ Hv Hl0) as HT.
+  assert (Hx0 : 0 <= x) by lia.
+  destruct (liq_shape va t x dec diff HT L2 Hx0 Hs) as (S3 & Td & Hrt & Hsh & _).
+  exists va, (liq_acct va dec decv x), (liq_denom va t dec diff),
+         (past_count_loop (a_start va) t (a_lock va)), dec, diff.
+  cbn [accts denoms]. rewrite !lookup_insert.
+  repeat split; try done; try lia.
+  - unfold liq_denom. cbn [d_periods]. destruct diff; reflexivity.
+  - unfold liq_denom. cbn [d_periods]. destruct diff; reflexivity.
+  - intros tau. unfold unlocked_ev. cbn [liq_acct a_start a_lock].
+    apply (liq_time_split va t x dec diff HT L2 Hx0 Hs).
+Qed.
+
+(** * Redeem releases nothing early *)
+Definition lock_ev (s : st) (a : N) (t : Z) : Z :=
+  match accts s !! a with Some va => unlocked_ev va t | None => 0 end.
+Definition orig_of (s : st) (a : N) : Z :=
+  match accts s !! a with Some va => a_orig va | None => 0 end.
+(** coins of the account that its lockup schedule still holds at time t
+    (none for an ordinary account) ... *)
+Definition locked_ev (s : st) (a : N) (t : Z) : Z := orig_of s a - lock_ev s a t.
+(** ... and the same as the code computes it: GetLockedUpCoins *)
+Definition locked_real (s : st) (a : N) (t : Z) : Z :=
+  match accts s !! a with Some va => a_orig va - unlocked_at va t | None => 0 end.
+
+Lemma ev_mono ps : amounts_nonneg ps -> forall s t t', t <= t' -> ev s ps t <= ev s ps t'.
+Proof.
+  induction 1 as [|p r Hp Hr IH]; intros s t t' Ht; cbn; [lia|].
+  specialize (IH (s + plen p) t t' Ht).
+  destruct (s + plen p <=? t) eqn:A; destruct (s + plen p <=? t') eqn:B; lia.
+Qed.
+
+Lemma ev_le_total ps : amounts_nonneg ps -> forall s t, ev s ps t <= total ps.
+Proof.
+  induction 1 as [|p r Hp Hr IH]; intros s t; cbn; [lia|].
+  specialize (IH (s + plen p) t). destruct (s + plen p <=? t); lia.
+Qed.
+
+Lemma upcoming_nil_released ds de diff t :
+  lens_nonneg diff -> amounts_nonneg diff -> diff <> [] -> de = ds + total_len diff ->
+  extract_upcoming ds de diff t = [] ->
+  forall tau, t <= tau -> ev ds diff tau = total diff.
+Proof.
+  intros Hl Ha Hne He. unfold extract_upcoming, past_count.
+  destruct (t <=? ds) eqn:A.
+  { intros H. exfalso. apply Hne. exact H. }
+  destruct (de <=? t) eqn:B.
+  { apply Z.leb_le in B. intros _ tau Ht. apply ev_after; [done|lia]. }
+  intros Hs tau Ht.
+  assert (Hc : past_count_loop ds t diff = length diff).
+  { pose proof (past_loop_le ds t diff). pose proof (skipn_length (past_count_loop ds t diff) diff) as SL.
+    rewrite Hs in SL. cbn in SL. lia. }
+  pose proof (past_loop_all _ _ _ Hc). pose proof (ev_mono _ Ha ds t tau Ht).
+  pose proof (ev_le_total _ Ha ds tau). lia.
+Qed.
+
+Lemma unlocked_at_le_ev va t : acct_ok va -> unlocked_at va t <= unlocked_ev va t.
+Proof.
+  intros (L1 & L2 & L3 & L4 & _). unfold unlocked_at, unlocked_ev.
+  apply read_schedule_le_ev; auto.
+Qed.
+
+Lemma locked_real_ge_ev s a t : Inv s -> locked_ev s a t <= locked_real s a t.
+Proof.
+  intros HI. unfold locked_ev, locked_real, orig_of, lock_ev.
+  destruct (accts s !! a) as [va|] eqn:E; [|lia].
+  pose proof (unlocked_at_le_ev va t (inv_accts _ HI _ _ E)). lia.
+Qed.
+
+Theorem redeem_no_early_unlock s t from to d x s' :
+  Inv s -> step true s (Redeem t from to d x) = (s', OK) ->
+  exists den dec diff,
+    denoms s !! d = Some den /\
+    subtract_amount (d_periods den) x = Some (dec, diff) /\
+    split3 (d_periods den) dec diff /\ total diff = x /\
+    (* the redeemed part is a part of the liquid denom's schedule *)
+    (forall tau, ev (d_start den) diff tau <= ev (d_start den) (d_periods den) tau) /\
+    (* the recipient's schedule releases nothing before the liquid schedule does *)
+    (forall tau, lock_ev s' to tau <= lock_ev s to tau + ev (d_start den) diff tau) /\
+    (* from now on the recipient holds locked exactly what it held locked before
+       plus the part of the redeemed amount that the liquid schedule still locks *)
+    (forall tau, t <= tau ->
+       locked_ev s' to tau = locked_ev s to tau + (x - ev (d_start den) diff tau)) /\
+    (* the same bound for the amount the code itself reports as locked *)
+    (forall tau, t <= tau ->
+       locked_ev s to tau + (x - ev (d_start den) diff tau) <= locked_real s' to tau).
+Proof.
+  intros HI E. pose proof (step_inv true s (Redeem t from to d x) HI) as HI'. rewrite E in HI'. cbn [fst] in HI'.
+  cbn [step] in E.
+  destruct (redeem_ok _ _ _ _ _ _ _ _ E) as (den & dec & diff & ac & Hx & He & Hd & Hh & Hs & Hesc & Hac & Hs').
+  destruct (inv_dens _ HI _ _ Hd) as ((D1 & D2 & D3) & Dt & Dpos & Dlt).
+  assert (Hx0 : 0 <= x) by lia.
+  destruct (split_exact _ _ _ _ D2 Hx0 Hs) as (S3 & Tf & Td).
+  destruct (split3_lens _ _ _ S3) as [_ Mf]. destruct (split3_amounts _ _ _ S3) as (_ & Af & _).
+  assert (Lf : lens_nonneg diff) by (eapply lens_ext; eauto).
+  assert (Hne : diff <> []) by (intros ->; cbn in Tf; lia).
+  exists den, dec, diff. split; [done|]. split; [done|]. split; [done|]. split; [done|].
+  split. { intros tau. apply (split3_ev_le _ _ _ S3). }
+  assert (Hacc : accts s' = ac) by (subst s'; reflexivity).
+  assert (Core : (forall tau, lock_ev s' to tau <= lock_ev s to tau + ev (d_start den) diff tau) /\
+                 (forall tau, t <= tau ->
+                    locked_ev s' to tau = locked_ev s to tau + (x - ev (d_start den) diff tau))).
+  { unfold locked_ev, orig_of, lock_ev. rewrite Hacc. clear Hs' Hacc HI' E.
+    unfold redeem_accts in Hac.
+    destruct (extract_upcoming (d_start den) (d_end den) diff t) eqn:Hup.
+    - injection Hac as <-. split.
+      + intros tau. pose proof (ev_nonneg _ Af (d_start den) tau). lia.
+      + intros tau Ht.
+        rewrite (upcoming_nil_released (d_start den) (d_end den) diff t Lf Af Hne) ; try done; [lia|].
+        rewrite D3. f_equal. destruct (split3_total_len _ _ _ S3) as [_ ->]. done.
+    - destruct (accts s !! to) as [va|] eqn:Hto.
+      + destruct (add_grant true va (d_start den) diff [(0, x)] x) as [va'|] eqn:Hg; [|discriminate].
+        injection Hac as <-. rewrite lookup_insert.
+        destruct (add_grant_ev _ _ _ _ _ _ Hg) as [Ho Hev].
+        split; intros tau; [|intros _]; rewrite Hev; lia.
+      + injection Hac as <-. rewrite lookup_insert. unfold unlocked_ev, new_acct. cbn [a_start a_lock a_orig].
+        split; intros tau; [|intros _]; lia. }
+  destruct Core as [C1 C2]. split; [exact C1|]. split; [exact C2|].
+  intros tau Ht. rewrite <- (C2 tau Ht). apply locked_real_ge_ev, HI'.
+Qed.
+
+(** The earlier merge-start computation violated this (finding F1, repaired in
+    /repo by commit 83e9993): redeeming into a vesting account that started
+    before the liquid denom moves the redeemed coins' release earlier. *)
+Definition f1_prefix : list op :=
+  [MkVest 0%N 1000 [(1000, 600)] [(0, 600)];
+   MkVest 1%N 100 [(5000, 100)] [(0, 100)];
+   Liquidate 1100 0%N 2%N 600].
+Definition f1_redeem : op := Redeem 1110 2%N 1%N 0%N 600.
+
+Lemma redeem_no_early_unlock_refuted :
+  let s := run false f1_prefix init in
+  let s' := fst (step false s f1_redeem) in
+  snd (step false s f1_redeem) = OK /\
+  denoms s !! 0%N = Some (mkdenom 1100 2000 [(900, 600)]) /\
+  lock_ev s 1%N 1500 = 0 /\ ev 1100 [(900, 600)] 1500 = 0 /\
+  lock_ev s' 1%N 1500 = 600.
+Proof. vm_compute. repeat split; reflexivity. Qed.
+
+(** ... while the repaired computation keeps them locked until 2000 *)
+Lemma redeem_no_early_unlock_witness_fixed :
+  let s := run true f1_prefix init in
+  let s' := fst (step true s f1_redeem) in
+  snd (step true s f1_redeem) = OK /\
+  lock_ev s' 1%N 1500 = 0 /\ lock_ev s' 1%N 1999 = 0 /\ lock_ev s' 1%N 2000 = 600.
+Proof. vm_compute. repeat split; reflexivity. Qed.
+
+(** the two computations only differ when the account started before the grant *)
+Lemma merge_start_agree va gs gl gv c :
+  gs <= a_start va -> add_grant false va gs gl gv c = add_grant true va gs gl gv c.
+Proof. intros H. unfold add_grant, grant_start. rewrite Z.min_l by lia. reflexivity. Qed.
+
+(** * non-vacuity: a history in which every kind of step succeeds *)
+Definition run_codes (fixed : bool) (ops : list op) (s : st) : list N :=
+  snd (fold_left (fun '(s, acc) o => let '(s', r) := step fixed s o in (s', acc ++ [r])) ops (s, [])).
+
+Definition ex_history : list op :=
+  [MkVest 0%N 1000 [(100, 30); (100, 30); (100, 30)] [(0, 90)];
+   MkVest 1%N 500 [(3000, 100)] [(0, 100)];
+   Liquidate 1050 0%N 2%N 40;
+   Xfer 2%N 3%N 0%N 10;
+   Redeem 1060 2%N 1%N 0%N 15;     (* into an existing vesting account with an earlier start *)
+   Redeem 1070 3%N 3%N 0%N 4;      (* into an ordinary account *)
+   Redeem 1300 2%N 2%N 0%N 15;     (* after the schedule's end: coins arrive free *)
+   Redeem 1301 3%N 0%N 0%N 6].     (* last tokens: the denom is deleted *)
+
+Example ex_history_all_ok : run_codes true ex_history init = [OK; OK; OK; OK; OK; OK; OK; OK].
+Proof. vm_compute. reflexivity. Qed.
+
+Example ex_history_final :
+  let s := run true ex_history init in
+  escrow s = 0 /\ denoms s !! 0%N = None /\ zget (bank s) 0%N = 56 /\ zget (bank s) 3%N = 4.
+Proof. vm_compute. repeat split; reflexivity. Qed.
+
+Example ex_split_nonvacuous :
+  subtract_amount [(100, 10); (100, 0); (100, 1); (5, 1)] 7
+  = Some ([(100, 5); (100, 0); (100, 0); (5, 0)], [(100, 5); (100, 0); (100, 1); (5, 1)])
+  /\ residue_of [(100, 10); (100, 0); (100, 1); (5, 1)] 7 = 2.
+Proof. vm_compute. split; reflexivity. Qed.
